@@ -10,6 +10,7 @@ import (
 )
 
 var userIDOffset = int(unsafe.Offsetof(ptttype.USEREC_RAW.UserID))
+var lastLoginOffset = int(unsafe.Offsetof(ptttype.USEREC_RAW.LastLogin))
 
 func mkID(s string) ID {
 	var id ID
@@ -481,6 +482,76 @@ func registerCases(p *pool) {
 	}
 }
 
+// sweepCases: a registration on a FULL table while the hourly sweep of expired accounts is due (ptt.tryCleanUser ->
+// killUser zeroes the expired records of .PASSWDS; the index in shm is not theirs to touch and the registration is still
+// refused).  The expired account A collides in the 16-bit hash with a live id B; B sits behind A on the chain, in a lower
+// or a higher slot; A at the head / in the middle / at the tail; one, two or no expirable records; slot 0 (uid 1) aged too
+// (never swept).  Every live id must still resolve afterwards, here and in the peer.
+func sweepCases(p *pool) {
+	fam := p.fams[0]
+	type sc struct {
+		aSlot, bSlot int  // A = fam[0] in aSlot, B = fam[1] put behind A by a rename of bSlot
+		extra        []int // more records to age
+		full         bool
+	}
+	cases := []sc{
+		{10, 3, nil, true}, {10, 30, nil, true}, {10, 3, []int{0, 20}, true}, {3, 10, []int{49}, true},
+		{10, 3, nil, false}, {-1, 3, nil, true},
+	}
+	if run.Thorough() {
+		cases = append(cases, sc{49, 1, []int{1}, true}, sc{1, 0, nil, true}, sc{25, 24, []int{2, 3, 4, 5, 6}, true})
+	}
+	for _, c := range cases {
+		table := make([]ID, MAX)
+		for k := 0; k < MAX; k++ {
+			table[k] = p.singles[k]
+		}
+		if c.aSlot >= 0 {
+			table[c.aSlot] = fam[0]
+		}
+		table[40] = fam[2] // a third member of the chain, loaded in slot order
+		if !c.full {
+			table[45] = ID{}
+		}
+		if !startHistory(table) {
+			continue
+		}
+		step(fmt.Sprintf("set %d %s", c.bSlot+1, idTok(fam[1])), "") // B goes to the tail of the chain, behind A
+		step(fileLine(false, liveTable()), "file")                  // .PASSWDS agrees with the table
+		if c.aSlot >= 0 {
+			step(fmt.Sprintf("expire %d", c.aSlot), "")
+		}
+		for _, k := range c.extra {
+			step(fmt.Sprintf("expire %d", k), "")
+		}
+		step("search "+idTok(caseVariant(fam[1])), "")
+		if over() {
+			continue
+		}
+		step(fmt.Sprintf("register %s 0 sweep", idTok(p.singles[60])), "")
+		for _, q := range []ID{fam[1], fam[2], fam[0]} {
+			if !over() {
+				step("search "+idTok(caseVariant(q)), "")
+			}
+		}
+		if !over() {
+			step("lookupall", "")
+			step("peer lookupall", "")
+		}
+		if !over() { // again: the records are gone from the file now, nothing left to sweep
+			step(fmt.Sprintf("register %s 0 sweep", idTok(p.singles[61])), "")
+			step("lookupall", "")
+		}
+		if !over() { // the killed account's slot is released by the owner (what a later cold start does slot by slot)
+			if c.aSlot >= 0 {
+				step(fmt.Sprintf("set %d %s", c.aSlot+1, idTok(ID{})), "")
+				step(fmt.Sprintf("register %s 0 sweep", idTok(p.singles[62])), "")
+				step("lookupall", "")
+			}
+		}
+	}
+}
+
 func randomTable(p *pool, kind int) []ID {
 	r := run.R
 	table := make([]ID, MAX)
@@ -897,6 +968,7 @@ func generate() {
 	staleLookups(p)
 	restartCases(p)
 	registerCases(p)
+	sweepCases(p)
 	nHist, nMal := 130, 25
 	if run.Thorough() {
 		nHist, nMal = 4000, 400
